@@ -6,8 +6,8 @@ use crate::rng::Rng;
 use std::collections::BTreeSet;
 
 /// `a\b` and `..\x`: a backslash is an ordinary name character for this crate (and on the host filesystem here);
-/// `a b`: names with a space
-pub const NAMES: &[&str] = &["a", "ab", "a.b", "b", "é", "d.x", ".h", "x_w", "..x", "...", "a\\b", "..\\x", "a b"];
+/// `a b`: names with a space; `y_wo`: ends like the overlay's deletion markers (there is no `y`: KF3 needs the pair)
+pub const NAMES: &[&str] = &["a", "ab", "a.b", "b", "é", "d.x", ".h", "x_w", "..x", "...", "a\\b", "..\\x", "a b", "y_wo"];
 
 /// Pairs (base, extension): the extension's text starts with the base's text, followed by a character that sorts
 /// below '/' ('.', ' ', '-'), above it, or is a plain letter — siblings whose keys interleave with the base's
